@@ -529,6 +529,24 @@ def gen_deerr(rng, tier):
                 add("opt", text, lk, ks, "opt")
             for text, lk, ks in layouts(rng, [b"n"], v):
                 add("newtype", text, lk, ks, "newtype")
+        # the same mismatches below an Option / newtype wrapper: the error must still point at the offending LEAF
+        for v in WRONG["int"]:
+            for text, lk, ks in layouts(rng, [b"t", b"b"], v):
+                add("optnested", add_sibling(text), lk, ks, "opt-nested")
+                add("newnested", add_sibling(text), lk, ks, "newtype-nested")
+            for text, lk, ks in layouts(rng, [b"t", b"u", b"b"], v):
+                add("optopt", text.replace(b"b = " + v, b"c = 'y'\nb = " + v) if text.startswith(b"[") else text, lk, ks, "opt-opt-nested")
+        for arr, idx in [(b'[1, "x", 3]', 1), (b"[1, 2, 3.5]", 2), (b"[\n 1, # c\n true ]", 1)]:
+            for text, lk, ks in layouts(rng, [b"v"], arr):
+                add("optvec", text, lk + "/#%d" % idx, ks, "opt-vec")
+        add("optmap", b"m = { a = 1, b = \"x\" }\n", "m/b", "m.b", "opt-map")
+        add("optmap", b"[m]\na = 1\nb = 'x' # " + rng.choice(MB) + b"\n", "m/b", "m.b", "opt-map")
+        add("optmap", b"m.a = 1\nm.b = true\n", "m/b", "m.b", "opt-map")
+        for v, sub, ksub in [(b'{ N = "x" }', "/N", ".N"), (b"{ S = { x = true } }", "/S/x", ".S.x")]:
+            for text, lk, ks in layouts(rng, [b"e"], v):
+                add("optenum2", text, lk + sub, ks + ksub, "opt-enum2", keys_alt=(ks + ksub.replace(".N", "").replace(".S", "")))
+        add("optnested", b"[t]\nb = 1\n", "t", "t", "opt-missing-nested")
+        add("optnested", b"t = { b = 1 }\n", "t", "t", "opt-missing-nested")
         add("map", b"m = { a = 1, b = \"x\" }\n", "m/b", "m.b", "map")
         add("map", b"[m]\na = 1\nb = 'x' # " + rng.choice(MB) + b"\n", "m/b", "m.b", "map")
         add("map", b"m.a = 1\nm.b = true\n", "m/b", "m.b", "map")
